@@ -19,7 +19,22 @@ import sys
 import warnings
 from typing import Any, Dict, List
 
-CONST = {"int64": [1, 3, 5, 8], "float64": [0.5, 1.5, 3.0, 7.25]}
+def consts_of(dtype: str) -> List[Any]:
+    """four increasing constants per dtype; the first is the dtype's ZERO (falsy bounds are a classic slip)"""
+    import pandas as pd
+
+    if dtype == "int64":
+        return [0, 3, 5, 8]
+    if dtype == "float64":
+        return [0.0, 1.5, 3.0, 7.25]
+    if dtype == "timedelta64[ns]":
+        return [pd.Timedelta(0), pd.Timedelta(days=1), pd.Timedelta(days=2), pd.Timedelta(days=5)]
+    if dtype == "datetime64[ns]":
+        return [pd.Timestamp("1970-01-01"), pd.Timestamp("2000-01-01"), pd.Timestamp("2010-06-01"), pd.Timestamp("2020-01-01")]
+    raise ValueError(dtype)
+
+
+DTYPES = ["int64", "float64", "timedelta64[ns]", "datetime64[ns]"]
 
 
 def rank(v: Any, consts: List[Any]) -> int:
@@ -121,8 +136,8 @@ def _one(job):
         consts = None
         cont = {"nullable": False, "unique": False, "size": 2}
     else:
-        dtype = ["int64", "float64"][idx % 2]
-        consts = CONST[dtype]
+        dtype = DTYPES[(idx // 4) % 4] if tier == "quick" else DTYPES[idx % 4]
+        consts = consts_of(dtype)
         checks = [mk_check(c, consts, pa) for c in vec["chain"]]
         cont = vec["cont"]
         kinds = [only_kind]
@@ -157,7 +172,8 @@ def _one(job):
                                        "physical_dtype": str(col.dtype)}
                 if consts is not None:
                     rec["ranks"] = [rank(v, consts) for v in vals]
-                    rec["values"] = [None if rank(v, consts) == -99 else (float(v) if dtype == "float64" else int(v)) for v in vals][:6]
+                    rec["values"] = [None if rank(v, consts) == -99 else (float(v) if dtype == "float64" else int(v) if dtype == "int64" else str(v))
+                                     for v in vals][:6]
                 else:
                     rec["values"] = [None if (v is None or v != v) else str(v)[:12] for v in vals][:6]
                 try:
@@ -169,6 +185,10 @@ def _one(job):
                     rec["validator"] = "raises:" + type(e).__name__
                 if kind == "regex":
                     rec["n_columns"] = int(d.shape[1])
+                    # the null mask may have hit the other generated column: container-level facts over all of them
+                    rec["has_null"] = bool(d.isna().any().any())
+                    if any(str(t) == "float64" for t in d.dtypes):
+                        rec["physical_dtype"] = "float64"
             except Exception as e:  # noqa: BLE001
                 rec = {"projection_error": "%s: %s" % (type(e).__name__, str(e)[:100])}
             ev["draws"].append(rec)
